@@ -117,9 +117,24 @@ def in_domain(case):
 # -------------------------------------------------------------------------------------------
 # oracle
 
+class _Masked(str):
+    """Every str is a str: subclasses with their own __str__/__repr__ (a str-valued Enum member, a secret that
+    prints as ***) are written as the characters they hold."""
+
+    def __str__(self):
+        return "<masked>"
+
+    __repr__ = __str__
+
+    def __format__(self, spec_):
+        return "<masked>"
+
+
 def _apply(w, op):
     """Same call shape for EoWriter and RefWriter (RefWriter returns INVALID instead of raising)."""
     k = op[0]
+    if k in ("string", "estring", "fixed", "efixed") and len(op[1]) % 3 == 1:
+        op = [k, _Masked(op[1])] + list(op[2:])
     if k == "byte":
         return w.add_byte(op[1])
     if k == "char":
@@ -270,8 +285,28 @@ def decode_op(bs):
 def case_strategy():
     op = wrgen.blob().map(decode_op)
     # three length bands so that long histories are not rare (Hypothesis' lists average ~min+5)
+    def build(ops):
+        # the same number written twice in a row, the second time into a (possibly) narrower field
+        for i in range(1, len(ops)):
+            a, b = ops[i - 1], ops[i]
+            if a[0] in INT_KINDS and b[0] in INT_KINDS and a[0] != b[0] and (a[1] + i) % 3 == 0:
+                ops[i] = [b[0], a[1]]
+        return {"ops": ops}
     return st.one_of(st.lists(op, min_size=1, max_size=40), st.lists(op, min_size=8, max_size=40),
-                     st.lists(op, min_size=20, max_size=40)).map(lambda ops: {"ops": ops})
+                     st.lists(op, min_size=20, max_size=40)).map(build)
+
+
+def long_cases():
+    """Deterministic histories with long strings: hundreds of break characters, thousands of separate runs of
+    characters without a windows-1252 image, with sanitisation on and off."""
+    texts = ["\u00ff" * 300, "a\u00ff" * 400, "\u00ff" * 70000, "a\u0416" * 3000, "\u0434\u0430 \u043d\u0435\u0442 " * 1500,
+             "\u65e5" * 5000, "x" * 65536 + "\u00ff"]
+    out = []
+    for t in texts:
+        for mode in (True, False):
+            out.append({"ops": [["mode", mode], ["char", 1], ["string", t], ["estring", t], ["fixed", t, len(t), False],
+                                ["efixed", t, len(t) + 3, True], ["fixed", t, len(t) - 1, True], ["short", 2]]})
+    return out
 
 
 # -------------------------------------------------------------------------------------------
@@ -285,6 +320,17 @@ def run_task(task):
         res.evaluations += 1
         check_case(c, case, res)
 
+    if task.get("kind") == "long":
+        for case in long_cases():
+            res.evaluations += 1
+            try:
+                check_case(c, case, None)
+            except Violation as v:
+                v.case = {"long_case": long_cases().index(case)}
+                res.violation(v)
+                break
+            res.nontrivial(["long", len(case["ops"][2][1]), case["ops"][0][1], case["ops"][2][1][:4]])
+        return res
     if hyp.campaign(case_strategy(), oracle, task["n"], task["seed"], res) is not None:
         wrgen.minimise_last_violation(res, in_domain, lambda case: check_case(c, case))
     return res
@@ -293,7 +339,7 @@ def run_task(task):
 def plan(tier, seed):
     total = 16000 if tier == "quick" else 200000
     workers = 16
-    return [{"n": -(-total // workers), "seed": seed * 1000 + w} for w in range(workers)]
+    return [{"n": -(-total // workers), "seed": seed * 1000 + w} for w in range(workers)] + [{"kind": "long"}]
 
 
 def finalize(merged, tier):
@@ -309,6 +355,8 @@ def finalize(merged, tier):
 
 
 def replay(case):
+    if "long_case" in case:
+        return check_case(loader.core(), long_cases()[case["long_case"]])
     if not in_domain(case):
         return  # outside the property's domain: nothing is claimed
     check_case(loader.core(), case)
